@@ -85,7 +85,12 @@ async fn startup_udp<const N: usize>(config: &ServerConfig<SslConfig>, user_mana
         return Ok(());
     }
     if config.mode.enable_udp() {
-        let (key, identity_keys) = password_to_keys(&config.password).map_err(|e| anyhow!(e))?;
+        // same credential format as for TCP: base64 key(s) for the 2022 ciphers, an ordinary password otherwise
+        let (key, identity_keys): ([u8; N], Vec<[u8; N]>) = if config.cipher.is_aead_2022() {
+            password_to_keys(&config.password).map_err(|e| anyhow!(e))?
+        } else {
+            (octo_squirrel::protocol::shadowsocks::aead::openssl_bytes_to_key(config.password.as_bytes()), Vec::with_capacity(0))
+        };
         let context = Context::new(Mode::Server, Some(user_manager.clone()), &key, &identity_keys);
         let codec = udp::new_codec::<N>(config, context)?;
         let inbound = UdpSocket::bind(format!("{}:{}", config.host, config.port)).await?;
